@@ -95,6 +95,8 @@ class Scenario:
             p = os.path.join(self.base, e[1])
             if e[0] == "dir":
                 os.makedirs(p, exist_ok=True)
+                if len(e) > 2:
+                    os.chmod(p, e[2])          # a directory with permission bits of its own
             else:
                 os.makedirs(os.path.dirname(p), exist_ok=True)
                 if e[0] == "file":
@@ -135,6 +137,8 @@ class Scenario:
 
     def dir_arg(self):
         """the target directory as main.rs resolves it: cwd joined with the (possibly relative, un-normalised) argument"""
+        if getattr(self, "dir_phys", None):
+            return self.dir_phys        # DIR goes through a symbolic link: what the kernel resolves it to
         if getattr(self, "dir_cli", None) and not self.dir_cli.startswith("/"):
             return os.path.join(self.cwd, self.dir_cli)
         return os.path.join(self.base, self.move_dir)
@@ -159,10 +163,10 @@ def parse_report(text):
 
 
 def inventory(base):
-    """path -> ('D',) | ('L', target) | ('F', ino, mtime_seconds, bytes); the report file is skipped"""
+    """path -> ('D', mode) | ('L', target) | ('F', ino, mtime_seconds, bytes); the report file is skipped"""
     inv = {}
     for dp, dns, fns in os.walk(base):
-        inv[dp] = ("D",)
+        inv[dp] = ("D", os.lstat(dp).st_mode & 0o7777)
         for n in list(dns):
             p = os.path.join(dp, n)
             if os.path.islink(p):
